@@ -122,6 +122,7 @@ def cases(ctx):
         yield c
 
 
+RETURNS = [None, True, False, 0, 1, "go on", None, True]
 CALLBACK_FORMS = ["function", "bound_method", "function", "class_level", "callable_object_empty_container", "partial",
                   "function", "class_level"]
 
@@ -169,6 +170,8 @@ def run_plan(ctx, case, mode, plan, seed, fresh_ref, feat):
             with lock:
                 raised.append(e)
             raise e
+        # what a callback that does not raise returns is nobody's business (event.is_set, a progress counter ...)
+        return RETURNS[(seed + i) % len(RETURNS)]
 
     form = CALLBACK_FORMS[seed % len(CALLBACK_FORMS)]
     ctx.count("callback:" + form)
